@@ -20,8 +20,8 @@ verify() { # $1 = property id
     echo "$id-$n: a=$a b=$b c=$c"
   done
 }
-for id in C01 C05 C06 C08 C09 C10 C12 C13 C18 C20; do [ -d $pre$id/out ] && verify $id > /tmp/imp-$tag-$id.out 2>&1 & done; wait
-cat /tmp/imp-$tag-C*.out | tee /tmp/imp-$tag-all.out
+for id in ${IDS:-C01 C05 C06 C08 C09 C10 C12 C13 C18 C20}; do [ -d $pre$id/out ] && verify $id > /tmp/imp-$tag-$id.out 2>&1 & done; wait
+rm -f /tmp/imp-$tag-all.out; for id in ${IDS:-C01 C05 C06 C08 C09 C10 C12 C13 C18 C20}; do cat /tmp/imp-$tag-$id.out 2>/dev/null; done | tee /tmp/imp-$tag-all.out
 python3 - "$pre" "$tag" <<'PY'
 import json, os, shutil, sys, re
 pre, tag = sys.argv[1], sys.argv[2]
@@ -42,4 +42,4 @@ for (pid, n) in sorted(ok):
 idx.close()
 print("imported", len(ok))
 PY
-cd $VERIF && ./check selftest -$tag- 2>&1 | grep -E "^CAUGHT|^MISSED|^ERROR|^ +[0-9]+ " | cut -c1-170 | tee $VERIF/selftest/round-$tag-first-contact.txt
+cd $VERIF && ./check selftest ${SELF_FILTER:--$tag-} 2>&1 | grep -E "^CAUGHT|^MISSED|^ERROR|^ +[0-9]+ " | cut -c1-170 | tee $VERIF/selftest/round-$tag-first-contact.txt
